@@ -392,17 +392,27 @@ def rule_R9(ck):
     repo = ck.repo
     fn = repo.func("reports::GraphicalHandler.__call__")
     mod = repo.module("reports")
-    lo = hi = ev = None
+    # the statement list that computes the window: from the assignment of min_line_no up to (not including) the first
+    # loop that files reports under events_per_line[report.line_no]
+    block = None
     for n in ast.walk(fn):
-        if isinstance(n, ast.Assign) and isinstance(n.targets[0], ast.Name):
-            if n.targets[0].id == "min_line_no":
-                lo = n.value
-            if n.targets[0].id == "max_line_no":
-                hi = n.value
-            if n.targets[0].id == "events_per_line":
-                ev = n.value
-    if lo is None or hi is None or ev is None:
-        raise Unknown("GraphicalHandler: window computation not found")
+        body = getattr(n, "body", None)
+        if isinstance(body, list):
+            for k, st in enumerate(body):
+                if isinstance(st, ast.Assign) and isinstance(st.targets[0], ast.Name) and st.targets[0].id == "min_line_no":
+                    block = body[k:]
+    if block is None:
+        raise Unknown("GraphicalHandler: window computation (min_line_no) not found")
+    stmts = []
+    consumer = None
+    for st in block:
+        uses = any(isinstance(m, ast.Subscript) and norm_text(m.value) == "events_per_line" and "line_no" in norm_text(m.slice) and "report" in norm_text(m.slice) for m in ast.walk(st))
+        if isinstance(st, ast.For) and uses:
+            consumer = st
+            break
+        stmts.append(st)
+    if consumer is None:
+        raise Unknown("GraphicalHandler: the loop that files reports under events_per_line was not found")
     I = interp(repo)
     RI = ClassVal("ReportInfoStub")
     count = 0
@@ -416,16 +426,18 @@ def rule_R9(ck):
                     reps.append(r)
                 env = Env()
                 env.vars.update(reports_lst=reps, lines=[""] * nlines)
+
                 def th():
-                    env.vars["min_line_no"] = I.ev(lo, env, mod)
-                    env.vars["max_line_no"] = I.ev(hi, env, mod)
-                    return set(I.ev(ev, env, mod).keys()), env.vars["min_line_no"], env.vars["max_line_no"]
+                    I.exec_block(stmts, env, mod)
+                    return set(env.vars["events_per_line"].keys()), env.vars["min_line_no"], env.vars["max_line_no"]
                 ps = I.explore(th)
                 count += 1
+                if len(ps) != 1 or ps[0].kind != "return":
+                    raise Unknown(f"GraphicalHandler window: {ps}")
                 keys, mn, mx = ps[0].value
                 if not ({a, b} <= keys) or mx > nlines or mn < 0:
                     ck.instance(("window", nlines, a, b), {"lines in file": nlines, "reported lines": [a, b], "window": [mn, mx]}, fn="reports::GraphicalHandler.__call__")
-                    ck.violation(hi if b not in keys or a not in keys else lo, f"a file of {nlines} line(s) with diagnostics on lines {a + 1} and {b + 1}: the rendered window is lines {mn + 1}..{mx}, which "
+                    ck.violation(stmts[0], f"a file of {nlines} line(s) with diagnostics on lines {a + 1} and {b + 1}: the rendered window is lines {mn + 1}..{mx}, which "
                                  f"{'misses a reported line (KeyError in the renderer: the run dies with an internal error although only a diagnostic was to be printed)' if not ({a, b} <= keys) else 'runs past the file'}",
                                  construct="graphical window misses a reported line")
                     return
@@ -442,3 +454,5 @@ def run(ck):
     ck.run_rule("C07.R8", "diagnostics and the image never share a stream", 10, rule_R8)
     ck.run_rule("C07.R9", "graphical renderer: the context window contains every reported line", 1, rule_R9)
     ck.run_rule("C02.R7w", "errors in unused definitions are diagnosed inside the report scope (closing evaluation of every symbol)", 1, c02.rule_closing_wait)
+    from ..rules import climodel
+    ck.run_rule("CLI", "main_cli over all output configurations: fails iff an error was reported, nothing written on failure, report options do not interfere", 500, climodel.rule_cli, ("exit", "noninterference"))
